@@ -368,7 +368,7 @@ def c09(rec, table=None):
     opts = case.get("options", {})
     tol = feas_tol(case)
     target = opts.get("target")
-    target = float(target) if target is not None and math.isfinite(float(target)) else None
+    target = float(target) if target is not None and float(target) > -INF else None  # +inf is a (trivial) target
     feas_pb = case["obj"]["kind"] == "none"
     first = None
     ambiguous = False
